@@ -5,6 +5,7 @@ import (
 	"github.com/Fantom-foundation/lachesis-base/inter/dag"
 	"github.com/Fantom-foundation/lachesis-base/inter/idx"
 	"github.com/Fantom-foundation/lachesis-base/inter/pos"
+	"github.com/Fantom-foundation/lachesis-base/kvdb"
 	"github.com/Fantom-foundation/lachesis-base/zzverif/sym"
 )
 
@@ -56,9 +57,13 @@ type vFrameFix struct {
 	fcv    []bool
 	events vEvents
 	Q      pos.Weight
+	fc     *vFC
 }
 
-func newVFrameFix(V int) *vFrameFix {
+func newVFrameFix(V int) *vFrameFix { return newVFrameFixW(V, false) }
+
+// warm: the root lists of the frames are already cached when the roots arrive (arrival order is kept)
+func newVFrameFixW(V int, warm bool) *vFrameFix {
 	sym.IntMode(true)
 	fx := &vFrameFix{events: vEvents{}}
 	fx.ids = make([]idx.ValidatorID, V)
@@ -83,13 +88,20 @@ func newVFrameFix(V int) *vFrameFix {
 
 	// roots: frame 1: every validator + a fork root of validator 0; frame 2: every validator;
 	// frame 3: validators 0 and 1; frame 4 and above: none
+	if warm {
+		for f := idx.Frame(1); f <= 4; f++ {
+			fx.store.GetFrameRoots(f)
+		}
+	}
 	add := func(frame idx.Frame, creator int, k byte) {
 		fx.roots = append(fx.roots, vRootDef{frame, creator, vRootID(frame, creator, k)})
 	}
+	// the fork root of validator 0 with the HIGHER event ID arrives first: the order in which a running
+	// instance lists the roots of that slot (arrival) differs from the order after a restart (key order)
+	add(1, 0, 1)
 	for v := 0; v < V; v++ {
 		add(1, v, 0)
 	}
-	add(1, 0, 1)
 	for v := 0; v < V; v++ {
 		add(2, v, 0)
 	}
@@ -110,6 +122,7 @@ func newVFrameFix(V int) *vFrameFix {
 		fc.fc[r.id] = b
 		fx.fcv = append(fx.fcv, b)
 	}
+	fx.fc = fc
 	fx.p = NewOrderer(fx.store, fx.events, fc, func(err error) { panic(err) }, LiteConfig())
 	return fx
 }
@@ -230,10 +243,34 @@ func verifC04Build(V int) {
 	sym.Reach("built")
 }
 
-func VerifH_C04_processV3() { verifC04Process(3) }
-func VerifH_C04_buildV3()   { verifC04Build(3) }
-func VerifH_C04_processV4() { verifC04Process(4) }
-func VerifH_C04_buildV4()   { verifC04Build(4) }
+// VerifH_C08_frameRestart: the frame rule after a restart.  The roots are registered on a running store (which
+// lists the roots of a frame in arrival order from its cache); the databases are then copied into a fresh
+// store (which lists them in key order) and the same event is built on both: the frames must agree (C08).
+func verifC08FrameRestart(V int) {
+	fx := newVFrameFixW(V, true)
+	spf := idx.Frame(sym.Choice("spf", 3))
+	e1 := fx.event(spf, 0)
+	sym.Assert(fx.p.Build(e1) == nil, "Build succeeds")
+	main2, epoch2 := copyDB(fx.store.mainDB), copyDB(fx.store.epochDB)
+	r := NewStore(main2, func(idx.Epoch) kvdb.Store { return epoch2 }, func(err error) { panic(err) }, LiteStoreConfig())
+	if err := r.openEpochDB(1); err != nil {
+		panic(err)
+	}
+	r.cache.EpochState = fx.store.cache.EpochState
+	r.cache.LastDecidedState = fx.store.cache.LastDecidedState
+	p2 := NewOrderer(r, fx.events, fx.fc, func(err error) { panic(err) }, LiteConfig())
+	e2 := fx.event(spf, 0)
+	sym.Assert(p2.Build(e2) == nil, "Build succeeds after the restart")
+	sym.Assert(e1.Frame() == e2.Frame(), "an instance restarted from the databases builds the same frame as the one that kept running (C08)")
+	sym.Assert(e1.Frame() == fx.highest(spf), "Build assigns the highest allowed frame")
+	sym.Reach("frame-restart")
+}
+
+func VerifH_C08_frameRestartV3() { verifC08FrameRestart(3) }
+func VerifH_C04_processV3()      { verifC04Process(3) }
+func VerifH_C04_buildV3()        { verifC04Build(3) }
+func VerifH_C04_processV4()      { verifC04Process(4) }
+func VerifH_C04_buildV4()        { verifC04Build(4) }
 
 // ---- temporary IDs of built events ----
 
